@@ -353,7 +353,7 @@ DEC_RANY = {'kind': 'gen', 'name': 'randomhistory', 'gen': dec_anyhist, 'comp': 
 DEC_FRAMES = {'kind': 'gen', 'name': 'randomframes', 'gen': dec_frames, 'comp': 'dec', 'trace': 'TraceDec'}
 
 PROPS = {
-    'C01': {'level': 'model_checking', 'stages': [ENC_BATCH, ENC_RANDOM], 'nontrivial_case': nt_enc_any,
+    'C01': {'level': 'model_checking', 'stages': [ENC_BATCH, ENC_WRAP, ENC_RANDOM], 'nontrivial_case': nt_enc_any,
             'rule': 'MC_Enc/EncBatch: every batch of 0..MaxPk packets over LenSet x MtSet x every context of MaxSet x MinSet, '
                     'encoder spec composed with decoder spec (InvC01), each enumerated case replayed on the real encoder and '
                     'decoder and judged by TraceEnc (RoundTripOK on logged input and decoded packets); plus seeded random '
@@ -364,7 +364,7 @@ PROPS = {
             'rule': 'as C01; monitor FramesWellFormed (independent frame walker of spec/Frames.tla) on the logged frames. '
                     'Non-trivial = distinct episodes with a non-empty batch; counters give how many calls needed segmentation, aggregation, padding.',
             'assumptions': COMMON_ASSUMPTIONS},
-    'C08': {'level': 'model_checking', 'stages': [ENC_BATCH, ENC_RANDOM], 'nontrivial_case': nt_enc_segmented,
+    'C08': {'level': 'model_checking', 'stages': [ENC_BATCH, ENC_WRAP, ENC_RANDOM], 'nontrivial_case': nt_enc_segmented,
             'rule': 'as C01 with lengths on both sides of every fit/no-fit boundary; monitor SegRules on the logged frames. '
                     'Non-trivial = distinct episodes in which at least one packet needed segmentation.',
             'assumptions': COMMON_ASSUMPTIONS},
@@ -373,7 +373,7 @@ PROPS = {
                     '(edge dump: one path per transition), a 70000-frame history that wraps the counter, seeded random '
                     'histories; monitor CounterRule. Non-trivial = distinct histories of at least two operations after init containing an encode call (wrap_calls counts wrap crossings).',
             'assumptions': COMMON_ASSUMPTIONS},
-    'C10': {'level': 'model_checking', 'stages': [ENC_HIST, ENC_HRANDOM], 'nontrivial_case': nt_enc_later_segmented,
+    'C10': {'level': 'model_checking', 'stages': [ENC_HIST, ENC_WRAP, ENC_HRANDOM], 'nontrivial_case': nt_enc_later_segmented,
             'rule': 'as C09; every encode event also logs the frames of a fresh encoder with the same ids; monitor '
                     'SameUpToShift. Non-trivial = distinct histories whose second or later encode call needed segmentation.',
             'assumptions': COMMON_ASSUMPTIONS},
